@@ -24,7 +24,9 @@ enum ReqState {
   /// A `send()` has passed the state check and is in flight. Claimed under the state lock so that
   /// concurrent senders cannot both pass the check; released by `ReqSendClaim` on error or drop.
   Sending,
-  ExpectingReply { target_endpoint_uri: String },
+  /// `exchange` numbers the request/reply exchanges, so that a receive belonging to an earlier
+  /// exchange (woken late) can never reset the state of the current one.
+  ExpectingReply { target_endpoint_uri: String, exchange: u64 },
 }
 
 /// Rolls a claimed `Sending` state back to `ReadyToSend` unless the send completed
@@ -52,6 +54,7 @@ pub(crate) struct ReqSocket {
   ingress_engine: AddressedIngressEngine,
   pending_pipe_senders: ParkingLotMutex<HashMap<usize, PipeMessageSender>>,
   state: ParkingLotMutex<ReqState>,
+  exchange_counter: std::sync::atomic::AtomicU64,
   reply_available_notifier: Arc<Notify>,
   pipe_read_to_endpoint_uri: RwLock<HashMap<usize, String>>,
 }
@@ -65,6 +68,7 @@ impl ReqSocket {
       ingress_engine: AddressedIngressEngine::new(max_conn),
       pending_pipe_senders: ParkingLotMutex::new(HashMap::new()),
       state: ParkingLotMutex::new(ReqState::ReadyToSend),
+      exchange_counter: std::sync::atomic::AtomicU64::new(0),
       reply_available_notifier: Arc::new(Notify::new()),
       pipe_read_to_endpoint_uri: RwLock::new(HashMap::new()),
     }
@@ -207,6 +211,9 @@ impl ISocket for ReqSocket {
           let mut current_state_guard = self.state.lock();
           *current_state_guard = ReqState::ExpectingReply {
             target_endpoint_uri: peer.uri.clone(),
+            exchange: self
+              .exchange_counter
+              .fetch_add(1, std::sync::atomic::Ordering::Relaxed),
           };
         }
         send_claim.completed = true;
@@ -230,22 +237,25 @@ impl ISocket for ReqSocket {
 
     let rcvtimeo_opt: Option<Duration> = self.core.core_state.read().options.rcvtimeo;
 
-    let send_in_flight = {
+    let my_exchange = {
       let op_state_guard = self.state.lock();
-      if matches!(*op_state_guard, ReqState::ExpectingReply { .. }) {
-        None
-      } else {
-        Some(matches!(*op_state_guard, ReqState::Sending))
+      match *op_state_guard {
+        ReqState::ExpectingReply { exchange, .. } => Ok(exchange),
+        ReqState::Sending => Err(true),
+        ReqState::ReadyToSend => Err(false),
       }
     };
-    if let Some(in_flight) = send_in_flight {
-      if in_flight {
-        tokio::task::yield_now().await;
+    let my_exchange = match my_exchange {
+      Ok(x) => x,
+      Err(in_flight) => {
+        if in_flight {
+          tokio::task::yield_now().await;
+        }
+        return Err(ZmqError::InvalidState(
+          "REQ socket must call send() before receiving",
+        ));
       }
-      return Err(ZmqError::InvalidState(
-        "REQ socket must call send() before receiving",
-      ));
-    }
+    };
 
     let notifier = self.reply_available_notifier.clone();
     let received_msg_result: Result<Msg, ZmqError>;
@@ -296,7 +306,9 @@ impl ISocket for ReqSocket {
     let mut should_notify = false;
     {
       let mut state_guard = self.state.lock();
-      if matches!(*state_guard, ReqState::ExpectingReply { .. }) {
+      // Only the exchange this receive belongs to may be finished by it: a receive of an earlier
+      // exchange that is woken late must not reset a newer request's state.
+      if matches!(*state_guard, ReqState::ExpectingReply { exchange, .. } if exchange == my_exchange) {
         let finished = received_msg_result.as_ref().map_or(true, |m| !m.is_more());
         if finished {
           *state_guard = ReqState::ReadyToSend;
@@ -326,29 +338,32 @@ impl ISocket for ReqSocket {
       return Err(ZmqError::InvalidState("Socket is closing".into()));
     }
 
-    let send_in_flight = {
+    let my_exchange = {
       let state_guard = self.state.lock();
-      if matches!(*state_guard, ReqState::ExpectingReply { .. }) {
-        None
-      } else {
-        Some(matches!(*state_guard, ReqState::Sending))
+      match *state_guard {
+        ReqState::ExpectingReply { exchange, .. } => Ok(exchange),
+        ReqState::Sending => Err(true),
+        ReqState::ReadyToSend => Err(false),
       }
     };
-    if let Some(in_flight) = send_in_flight {
-      if in_flight {
-        tokio::task::yield_now().await;
+    let my_exchange = match my_exchange {
+      Ok(x) => x,
+      Err(in_flight) => {
+        if in_flight {
+          tokio::task::yield_now().await;
+        }
+        return Err(ZmqError::InvalidState(
+          "REQ socket must call send() before receiving reply",
+        ));
       }
-      return Err(ZmqError::InvalidState(
-        "REQ socket must call send() before receiving reply",
-      ));
-    }
+    };
 
     let rcvtimeo_opt: Option<Duration> = self.core.core_state.read().options.rcvtimeo;
     let result = self.ingress_engine.recv_logical_message(rcvtimeo_opt).await;
 
     {
       let mut state_guard = self.state.lock();
-      if matches!(*state_guard, ReqState::ExpectingReply { .. }) {
+      if matches!(*state_guard, ReqState::ExpectingReply { exchange, .. } if exchange == my_exchange) {
         *state_guard = ReqState::ReadyToSend;
         self.reply_available_notifier.notify_waiters();
       }
@@ -465,6 +480,7 @@ impl ISocket for ReqSocket {
         let mut op_state_guard = self.state.lock();
         if let ReqState::ExpectingReply {
           ref target_endpoint_uri,
+          ..
         } = *op_state_guard
         {
           if *target_endpoint_uri == *detached_uri {
